@@ -72,6 +72,9 @@ impl GFb127 {
 
     #[inline(always)]
     pub fn set_cond(&mut self, a: &Self, ctl: u32) {
+        // Barrier: prevent the compiler from turning the masking below
+        // into a conditional jump on the (possibly secret) control word.
+        let ctl = core::hint::black_box(ctl);
         self.0[0] ^= ctl & (self.0[0] ^ a.0[0]);
         self.0[1] ^= ctl & (self.0[1] ^ a.0[1]);
         self.0[2] ^= ctl & (self.0[2] ^ a.0[2]);
@@ -87,6 +90,9 @@ impl GFb127 {
 
     #[inline(always)]
     pub fn cswap(a: &mut Self, b: &mut Self, ctl: u32) {
+        // Barrier: prevent the compiler from turning the masking below
+        // into a conditional jump on the (possibly secret) control word.
+        let ctl = core::hint::black_box(ctl);
         let t = ctl & (a.0[0] ^ b.0[0]); a.0[0] ^= t; b.0[0] ^= t;
         let t = ctl & (a.0[1] ^ b.0[1]); a.0[1] ^= t; b.0[1] ^= t;
         let t = ctl & (a.0[2] ^ b.0[2]); a.0[2] ^= t; b.0[2] ^= t;
@@ -979,7 +985,7 @@ impl GFb127 {
             return 0;
         }
         self.set_decode16_reduce(buf);
-        let m = !sgnw(self.0[3]);
+        let m = core::hint::black_box(!sgnw(self.0[3]));
         self.0[0] &= m;
         self.0[1] &= m;
         self.0[2] &= m;
